@@ -30,8 +30,10 @@ def generate(tier, rng):
         if o["flavour"] == "ssl":
             lines.append("hs c0 ok")
         target = b"/hello" if o["policy"] == "router" else b"/h"
+        heads = []
         for j in range(rng.range(1, 5)):
             method = rng.choice([b"HEAD", b"HEAD", b"GET", b"POST", b"PUT"])
+            heads.append(method == b"HEAD")
             hdrs = [gen_sim.HOST]
             body = b""
             if method == b"PUT" and o["policy"] != "router":
@@ -51,7 +53,7 @@ def generate(tier, rng):
                 lines.append("read c0 " + hx(part))
             lines.append("wdone c0")
         lines.append("state")
-        cases.append(Case("c14-%d" % i, lines, {"opts": o, "tags": [o["policy"], "translate%s" % o["translate"]]}))
+        cases.append(Case("c14-%d" % i, lines, {"opts": o, "heads14": heads, "tags": [o["policy"], "translate%s" % o["translate"]]}))
     return cases
 
 
